@@ -122,7 +122,12 @@ class DefaultNodeIO(BaseNodeIO):
                 if acqpath.is_dir():
                     # Look for placeholders
                     for file_ in ArchiveFile.select().where(ArchiveFile.acq == acq):
-                        placeholder = acqpath.joinpath(f".{file_.name}.placeholder")
+                        # The placeholder lives beside the file, which may be
+                        # in a subdirectory of the acquisition
+                        filepath = acqpath.joinpath(file_.name)
+                        placeholder = filepath.with_name(
+                            f".{filepath.name}.placeholder"
+                        )
                         if placeholder.exists():
                             log.warning(f"Removing stale placeholder {placeholder!s}")
                             placeholder.unlink()
